@@ -25,7 +25,7 @@ class Hang(Exception):
 
 
 def run_case(n_sims: int, transport: list, faulty: int, index: int, kind: str, apis: list | None = None, flavour: dict | None = None,
-             timeout: float = 8.0) -> dict:
+             slow: list | None = None, timeout: float = 8.0) -> dict:
     """transport[i] in {'local', 'remote'}; simulator `faulty` fails at its request `index` with `kind`;
     apis[i] = API version simulator i reports (None = 3.0; older ones are wrapped in adapters by mosaik)."""
     logfile = tempfile.mktemp(prefix="mosaik-verif-fault-", dir="/var/tmp")
@@ -36,7 +36,8 @@ def run_case(n_sims: int, transport: list, faulty: int, index: int, kind: str, a
               "env": {"PYTHONPATH": os.pathsep.join(p for p in sys.path if p)}},
     }
     # flavour: {"typ": simulator type of the faulty simulator, "exc": exception class it raises}
-    res = {"n_sims": n_sims, "transport": transport, "faulty": faulty, "index": index, "kind": kind, "apis": apis, "flavour": flavour}
+    # slow[i] = seconds every step of (healthy, subprocess) simulator i takes: it is in the middle of a request when the fault happens
+    res = {"n_sims": n_sims, "transport": transport, "faulty": faulty, "index": index, "kind": kind, "apis": apis, "flavour": flavour, "slow": slow}
     destroyed = io.StringIO()
     handler = logging.StreamHandler(destroyed)
     logging.getLogger("asyncio").addHandler(handler)
@@ -61,6 +62,8 @@ def run_case(n_sims: int, transport: list, faulty: int, index: int, kind: str, a
                 extra = {"api": apis[i]} if apis and apis[i] else {}
                 if i == faulty and flavour and flavour.get("typ"):
                     extra["typ"] = flavour["typ"]
+                if slow and slow[i]:
+                    extra["slow"] = slow[i]
                 fac = world.start("L" if transport[i] == "local" else "R", sim_id=f"S{i}", logfile=logfile, fault=f, **extra)
                 ents.append(fac.M())
             for i in range(n_sims - 1):
@@ -100,17 +103,11 @@ def run_case(n_sims: int, transport: list, faulty: int, index: int, kind: str, a
         sys.stderr = old_stderr
         logging.getLogger("asyncio").removeHandler(handler)
         asyncio.set_event_loop(None)
-    lines = open(logfile).read().split("\n")
-    os.unlink(logfile)
     pids = {}
-    finals = {}
-    for l in lines:
+    for l in open(logfile).read().split("\n"):
         p = l.split(" ")
         if p[0] == "init":
             pids[p[1]] = int(p[2])
-        if p[0] == "finalize":
-            finals[p[1]] = finals.get(p[1], 0) + 1
-    res["finalize_counts"] = {f"S{i}": finals.get(f"S{i}", 0) for i in range(n_sims)}
     # processes must be gone (give them a moment)
     alive = []
     for sid, pid in pids.items():
@@ -140,6 +137,14 @@ def run_case(n_sims: int, transport: list, faulty: int, index: int, kind: str, a
             except ProcessLookupError:
                 pass
     res["processes_left"] = alive
+    # finalize is counted once the processes are gone (a simulator that was busy when it was told to stop finalizes afterwards)
+    finals = {}
+    for l in open(logfile).read().split("\n"):
+        p = l.split(" ")
+        if p[0] == "finalize":
+            finals[p[1]] = finals.get(p[1], 0) + 1
+    os.unlink(logfile)
+    res["finalize_counts"] = {f"S{i}": finals.get(f"S{i}", 0) for i in range(n_sims)}
     if not loop.is_closed():
         try:
             loop.close()
@@ -230,7 +235,23 @@ def enumerate_cases(tier: str, rng):
         n, tr, faulty = c[0], c[1], c[2]
         typ = rng.choice(["hybrid", "hybrid", "event-based"] if faulty > 0 else ["hybrid"])
         flavoured.append(c + (None, {"typ": typ, "exc": rng.choice(["TypeError", "TypeError", "KeyError", "RuntimeError"])}))
-    return base + legacy + flavoured
+    # a healthy subprocess simulator that is in the middle of a (slow) step when another simulator fails; simulators started
+    # after it must still be stopped
+    busy = []
+    for (faulty, slow_i) in ((1, 0), (2, 0), (0, 1), (2, 1)):
+        for index in (1, 2, 3, 4):
+            for ftr, kind in (("local", "raise"), ("remote", "raise"), ("remote", "exit")):
+                tr = ["local"] * 3
+                tr[slow_i] = "remote"
+                tr[faulty] = ftr
+                sl = [0, 0, 0]
+                sl[slow_i] = 0.4
+                busy.append((3, tr, faulty, index, kind, None, None, sl))
+    if tier == "quick":
+        # the first simulator running ahead of a failing last one is the shape in which it is reliably busy at the fault
+        ahead = [c for c in busy if c[2] == 2 and c[7][0] and c[3] in (1, 2)]
+        busy = rng.sample(ahead, 3) + rng.sample([c for c in busy if c not in ahead], 3)
+    return base + legacy + flavoured + busy
 
 
 def run_suite(driver, rng, tier: str) -> dict:
@@ -248,7 +269,7 @@ def run_suite(driver, rng, tier: str) -> dict:
         r["fault_reached"] = c[3] < nreq
         results.append(r)
         hist[f"{'remote' if c[1][c[2]] == 'remote' else 'local'}:{c[4]}:{r['outcome'].split(' ')[0]}" + ("" if r["fault_reached"] else ":no-fault") +
-             (":legacy-api neighbours" if len(c) > 5 and c[5] else "") + (f":{c[6]['typ']}:{c[6]['exc']}" if len(c) > 6 and c[6] else "")] += 1
+             (":legacy-api neighbours" if len(c) > 5 and c[5] else "") + (f":{c[6]['typ']}:{c[6]['exc']}" if len(c) > 6 and c[6] else "") + (":healthy subprocess busy" if len(c) > 7 and c[7] else "")] += 1
         vio.extend(judge(r))
         l, impl = model_line(r)
         lines.append(l)
@@ -264,7 +285,8 @@ def run_suite(driver, rng, tier: str) -> dict:
                      "(setup_done, step, get_data ...; indices beyond the run are fault-free controls); in-process: exception in the handler; "
                      "subprocess (all local but the faulty one, and all remote): exception in the handler and process exit (os._exit); "
                      "a third of the cases (quick) / all cases (thorough) again with the healthy simulators reporting API version 2.0 / 2.2 (adapter-wrapped); "
-                     "a quarter (quick) / all (thorough) of the in-process cases again with a hybrid or event-based faulty simulator raising TypeError / KeyError / RuntimeError" +
+                     "a quarter (quick) / all (thorough) of the in-process cases again with a hybrid or event-based faulty simulator raising TypeError / KeyError / RuntimeError; "
+                     "6 (quick) / 48 (thorough) cases in which a healthy subprocess simulator is in the middle of a 0.4 s step when another simulator fails" +
                      ("; remote cases sampled (14)" if tier == "quick" else "; all remote cases"))}
 
 
